@@ -27,6 +27,12 @@ def load_theory(spec):
     if spec[0] == "file":
         from . import parser
         return parser.load(spec[1])
+    if spec[0] == "model":
+        from . import models
+        th = models.gen_model_theory(spec[1])
+        if th is None:
+            raise ValueError("no rules")
+        return th
     raise ValueError(spec)
 
 
